@@ -152,6 +152,22 @@ class VExt(V):
         return "VExt(%s)" % s.name
 
 
+class VRec(V):
+    """A dict-valued field of a heap object whose constant keys are modelled as
+    separate heap fields (LASFile.sections['Well'] -> field $sec_Well)."""
+
+    def __init__(s, ref, mapping):
+        s.ref, s.mapping = ref, mapping
+
+
+class VPy(V):
+    """A concrete Python object with an attribute dictionary (used when a real
+    method is executed concretely on the real tables, e.g. SectionParser.__init__)."""
+
+    def __init__(s, cls, attrs=None):
+        s.cls, s.attrs = cls, dict(attrs or {})
+
+
 class VType(V):
     """type(obj) of a heap object: the dynamic class tag"""
 
